@@ -47,16 +47,20 @@ def exact_cell_volumes(gspec):
     edges = [lo + (hi - lo) / n * np.arange(n + 1) for (lo, hi), n in zip(bnds, shape)]
     cls = gspec["cls"]
     if cls in ("unit", "cart"):
+        # uniform cells: the width (hi - lo)/n itself, not differences of the edges lo + k*dx, which vary from cell
+        # to cell by eps*|lo|/dx for grids far from the origin and spoil the telescoping of the sum (false alarm of
+        # the thorough tier: bounds [8, 8.01], 6 cells)
         vol = np.ones(())
-        for e in edges:
-            vol = np.multiply.outer(vol, np.diff(e))
+        for (lo, hi), n in zip(bnds, shape):
+            vol = np.multiply.outer(vol, np.full(n, (hi - lo) / n))
         return vol
     r = edges[0]
     if cls == "polar":
         return math.pi * (r[1:] ** 2 - r[:-1] ** 2)
     if cls == "sph":
         return 4 * math.pi / 3 * (r[1:] ** 3 - r[:-1] ** 3)
-    return np.multiply.outer(math.pi * (r[1:] ** 2 - r[:-1] ** 2), np.diff(edges[1]))
+    (zlo, zhi), nz = bnds[1], shape[1]
+    return np.multiply.outer(math.pi * (r[1:] ** 2 - r[:-1] ** 2), np.full(nz, (zhi - zlo) / nz))
 
 
 @st.composite
